@@ -20,9 +20,11 @@ quick    = all Lebedev and Ahrens-Beylkin grids, every 8th spherical-design / ma
            VERIF_SEED-chosen 10 % of the rest.
 
 Tolerances and calibration (pinned tree, all 450 grids, thorough tier):
-  harmonic integrals, absolute: TOL = 1e-9.  Sound files: lebedev <= 1.2e-12, spherical <= 2.6e-14,
-  maxdet <= 3.3e-12, ahrens_beylkin <= 2.6e-12 (54 files); defective files ahrens_beylkin_39_552
-  2.6e-1 and ahrens_beylkin_127_5472 5.4e-5 (known findings).  2.5 orders below, 4.7 above.
+  harmonic integrals, absolute: TOL = 1e-8.  Sound files, max over all (l, m): lebedev <= 1.3e-12,
+  spherical <= 2.5e-14, maxdet <= 3.3e-12, ahrens_beylkin <= 2.6e-12 (54 files); defective files
+  ahrens_beylkin_39_552 2.6e-1 and ahrens_beylkin_127_5472 5.4e-5 (known findings).  The threshold
+  is 3.5 orders of magnitude above the largest sound and 3.7 below the smallest defective value
+  (DESIGN.md proposed 1e-9, which leaves only 2.5 orders on the sound side).
   unit norm: | |p| - 1 | <= 1e-12; measured <= 6.7e-16 on all files.
 """
 from __future__ import annotations
@@ -40,7 +42,7 @@ from ..evidence import Report
 from ..expr_eval import evaluate
 
 PROP = "C02"
-TOL = 1e-9
+TOL = 1e-8
 UNIT_TOL = 1e-12
 SPLIT = 6000       # grids with more points are split into slices of this many points
 
@@ -191,7 +193,7 @@ def run(tier: str) -> int:
 
     # ---- 4. TLC judges the accounting ---------------------------------------------------------------
     _records_module(wd, tier, extra, "records.json")
-    r1 = tlc.run_tlc("AngularCatalogue", "MC_AngularCatalogue.cfg", wd, workers=4, timeout=600).require_ok("accounting")
+    r1 = tlc.run_tlc("AngularCatalogue", "MC_AngularCatalogue_accounting.cfg", wd, workers=4, timeout=600).require_ok("accounting")
     rep.tlc(r1, "AngularCatalogue(accounting)")
     if r1.status == "violation":
         rep.violation(f"catalogue:{','.join(r1.violated)}", f"TLC: {r1.violated} violated; {tlc.last_state(r1)}")
@@ -210,7 +212,7 @@ def run(tier: str) -> int:
                       {"method": m, "degree": d, "size": s, "file": fname, "why": why, **dt})
     # harness-side cross-check of the accounting: nothing the judge flagged may be missing
     for fname, dt in detail.items():
-        if (dt["nfail"] or dt["unit_worst"] > UNIT_TOL) and not any(k[0] == fname for k in seen):
+        if r1.status == "ok" and (dt["nfail"] or dt["unit_worst"] > UNIT_TOL) and not any(k[0] == fname for k in seen):
             raise tlc.MachineryError(f"accounting run did not report the failing grid {fname}")
 
     by_m = {}
@@ -340,6 +342,15 @@ def selftest(tier: str) -> int:
             p = np.vstack([p, p[-1:]]); w = np.append(w, 0.0)
         return p, w
     attempt("ahrens-beylkin-20-extra-zero-weight-point", lambda: set_load(load6), lambda: set_load(orig_load))
+
+    # 7. weights of one file wrong only in a top-degree component: w_i (1 + 1e-5 sqrt(4 pi) Y_{22,0}(p_i))
+    #    (lower harmonics still integrate to ~1e-7; only a check up to the FULL advertised degree sees 1e-5)
+    def load7(degree, size, method):
+        p, w = orig_load(degree, size, method)
+        if method == "lebedev" and degree == 23:
+            w = w * (1.0 + 1e-5 * math.sqrt(4 * math.pi) * ylm.ylm_xyz(22, p)[ylm.row(22, 0)])
+        return p, w
+    attempt("lebedev-23-weights-off-in-Y(22,0)-by-1e-5", lambda: set_load(load7), lambda: set_load(orig_load))
 
     missed = [n for n, ok in results if not ok]
     print(f"selftest: {len(results) - len(missed)}/{len(results)} mutants killed; missed: {missed}")
